@@ -68,15 +68,15 @@ def issuerOK (E : SignEnv) (signer : Option Cert) (t : Cert) (iss : String) : Pr
       withinFields s t.notBefore t.notAfter t.groups t.networks t.unsafeNetworks ∧ E.K.fingerprint s = some iss
   | none => t.isCA = true ∧ iss = ""
 
-/-- `SignWith` succeeds exactly under the conjunction of its guards and oracle successes. -/
-theorem signWith_ok_iff (E : SignEnv) (signer : Option Cert) (kc : Nat) (t c : Cert) :
-    signWith E signer kc t = .ok c ↔
+/-- `SignWith` up to `setSignature` succeeds exactly under the conjunction of its guards and oracle successes. -/
+theorem signWithUnsized_ok_iff (E : SignEnv) (signer : Option Cert) (kc : Nat) (t c : Cert) :
+    signWithUnsized E signer kc t = .ok c ↔
       kc = t.curve ∧ ∃ iss, issuerOK E signer t iss ∧
       ∃ v, validateVersion (fromTBS t iss) = some (.ok v) ∧
       ∃ bytes sig0 sig, E.tbsBytes v = some bytes ∧ E.sign bytes = some sig0 ∧
         (if kc = curveP256 then E.normalize sig0 else some sig0) = some sig ∧ sig ≠ [] ∧
         c = { v with signature := sig } := by
-  unfold signWith
+  unfold signWithUnsized
   by_cases hk : kc = t.curve
   case neg => simp [hk]
   subst hk
@@ -180,6 +180,43 @@ theorem signWith_ok_iff (E : SignEnv) (signer : Option Cert) (kc : Nat) (t c : C
         cases hf : E.K.fingerprint s <;> simp [this, eq_comm]
     · simp
 
+theorem signWith_eq (E : SignEnv) (signer : Option Cert) (kc : Nat) (t c : Cert) :
+    signWith E signer kc t = .ok c ↔
+      signWithUnsized E signer kc t = .ok c ∧ (c.version = 2 → E.tooLarge c = false) := by
+  unfold signWith
+  cases h : signWithUnsized E signer kc t with
+  | error e => simp
+  | ok c' =>
+    simp only [Except.ok.injEq]
+    by_cases hb : c'.version = 2 ∧ E.tooLarge c' = true
+    · rw [if_pos hb]
+      constructor
+      · intro h; cases h
+      · rintro ⟨rfl, h2⟩
+        have := h2 hb.1
+        rw [hb.2] at this
+        cases this
+    · rw [if_neg hb]
+      simp only [Except.ok.injEq]
+      constructor
+      · rintro rfl
+        refine ⟨rfl, fun hv => ?_⟩
+        cases ht : E.tooLarge c' with
+        | false => rfl
+        | true => exact absurd ⟨hv, ht⟩ hb
+      · rintro ⟨rfl, -⟩; rfl
+
+/-- `SignWith` succeeds exactly under the conjunction of its guards and oracle successes, the last guard being
+that a v2 certificate's encoding fits the decoder's `MaxCertificateSize`. -/
+theorem signWith_ok_iff (E : SignEnv) (signer : Option Cert) (kc : Nat) (t c : Cert) :
+    signWith E signer kc t = .ok c ↔
+      (kc = t.curve ∧ ∃ iss, issuerOK E signer t iss ∧
+      ∃ v, validateVersion (fromTBS t iss) = some (.ok v) ∧
+      ∃ bytes sig0 sig, E.tbsBytes v = some bytes ∧ E.sign bytes = some sig0 ∧
+        (if kc = curveP256 then E.normalize sig0 else some sig0) = some sig ∧ sig ≠ [] ∧
+        c = { v with signature := sig }) ∧ (c.version = 2 → E.tooLarge c = false) := by
+  rw [signWith_eq, signWithUnsized_ok_iff]
+
 /-! Concrete data for the examples / the known-finding witness of `Props/C04.lean`. -/
 
 def exE : SignEnv where
@@ -188,6 +225,7 @@ def exE : SignEnv where
   tbsBytes _ := some [1]
   sign _ := some [9]
   normalize s := some s
+  tooLarge _ := false
 
 def exTBS : Cert := { CAPool.exLeaf with curve := 0, issuer := "", signature := [] }
 
